@@ -12,8 +12,12 @@ class WalkerDied(Exception):
     pass
 
 
+class WalkerTimeout(WalkerDied):
+    """no answer within the time limit: on a loaded machine this is inconclusive, not a verdict"""
+
+
 class Walker:
-    def __init__(self, idx, cwd, fds=(), variant="rel", timeout=20.0):
+    def __init__(self, idx, cwd, fds=(), variant="rel", timeout=90.0):
         self.idx = idx
         self.cwd = cwd
         self.timeout = timeout
@@ -44,7 +48,7 @@ class Walker:
         while b"\n" not in self.buf:
             r, _, _ = select.select([self.p.stdout], [], [], self.timeout)
             if not r:
-                raise WalkerDied("walker %d: no answer within %.0f s (hang)" % (self.idx, self.timeout))
+                raise WalkerTimeout("walker %d: no answer within %.0f s" % (self.idx, self.timeout))
             chunk = os.read(self.p.stdout.fileno(), 1 << 16)
             if not chunk:
                 raise WalkerDied("walker %d: exited rc=%s stderr=%s" % (self.idx, self.p.wait(), self.stderr_tail()))
